@@ -223,12 +223,85 @@ func ruleC03_2(c *Ctx) {
 			hasScheme := own["field:Scheme"]
 			hasHost := own["field:Host"] || own["method:Hostname"]
 			if !hasScheme || !hasHost {
-				badRet = append(badRet, fmt.Sprintf("%s: this return's key depends on %v only", c.P.InstrPos(r), sortedKeys(own)))
+				badRet = append(badRet, fmt.Sprintf("%s: this return's key depends on %v only; requests to different hosts with the same opaque request-target share an entry", c.P.InstrPos(r), sortedKeys(own)))
 			}
 		}
 	}
+	// the raw query enters the key whenever it is non-empty: the only decisions in front of the concatenation are
+	// emptiness tests of URL components (and the error test of the base URL parse)
+	nq := 0
+	for _, g := range c.reachableFrom(uk) {
+		instrsOf(g, func(in ssa.Instruction) {
+			add, ok := in.(*ssa.BinOp)
+			if !ok || add.Op != token.ADD || !isStringType(add.Type()) {
+				return
+			}
+			var isQuery func(v ssa.Value, depth int) bool
+			isQuery = func(v ssa.Value, depth int) bool {
+				hit := false
+				c.P.TraceBack(v, TraceOpts{ThroughOps: true, ThroughExtern: true, NoParams: true, NoHeapFields: true}, func(y ssa.Value, _ []int) bool {
+					if b, isAdd := y.(*ssa.BinOp); isAdd && b != add && b.Op == token.ADD {
+						return false // an earlier concatenation: judged on its own
+					}
+					if call, isCall := y.(*ssa.Call); isCall && depth < 3 {
+						// a normalising helper applied to the query: look at what is handed to it
+						if sc := call.Call.StaticCallee(); sc != nil && c.P.IsRepoFunc(sc) {
+							for _, a := range call.Call.Args {
+								if isQuery(a, depth+1) {
+									hit = true
+								}
+							}
+							return false
+						}
+					}
+					if fa, ok := y.(*ssa.FieldAddr); ok && ptrTo(fa.X.Type(), "net/url", "URL") && fieldName(fa.X.Type(), fa.Field) == "RawQuery" {
+						hit = true
+					}
+					if u, ok := y.(*ssa.UnOp); ok {
+						if fa, ok := u.X.(*ssa.FieldAddr); ok && ptrTo(fa.X.Type(), "net/url", "URL") && fieldName(fa.X.Type(), fa.Field) == "RawQuery" {
+							hit = true
+						}
+					}
+					return !hit
+				})
+				return hit
+			}
+			if !isQuery(add.X, 0) && !isQuery(add.Y, 0) {
+				return
+			}
+			nq++
+			for _, dc := range dominatingConds(add.Block()) {
+				for _, lf := range condLeaves(dc.cond, dc.onTrue) {
+					okLeaf := false
+					if bo, ok := lf.v.(*ssa.BinOp); ok && (bo.Op == token.EQL || bo.Op == token.NEQ) {
+						isEmpty := func(v ssa.Value) bool { s, ok := constStr(v); return ok && s == "" }
+						isURLField := func(v ssa.Value) bool {
+							if u, ok := v.(*ssa.UnOp); ok {
+								if fa, ok := u.X.(*ssa.FieldAddr); ok && ptrTo(fa.X.Type(), "net/url", "URL") {
+									return true
+								}
+							}
+							return false
+						}
+						if isEmpty(bo.X) && isURLField(bo.Y) || isEmpty(bo.Y) && isURLField(bo.X) {
+							okLeaf = true
+						}
+						if isNilConst(bo.X) || isNilConst(bo.Y) {
+							okLeaf = true
+						}
+					}
+					if !okLeaf {
+						badRet = append(badRet, fmt.Sprintf("%s: the query is appended only under `%s` (%s); queries for which that test fails (e.g. `?a=1;b=2`, `?id=%%zz`) are dropped from the key and share the entry of the bare path", c.P.InstrPos(add), lf.v.String(), c.P.Pos(lf.v.Pos())))
+					}
+				}
+			}
+		})
+	}
+	if nq == 0 {
+		badRet = append(badRet, c.P.ShortName(uk)+": no concatenation of the raw query into the key")
+	}
 	if len(badRet) > 0 {
-		c.Fail("C03.2", "every-key-names-the-origin", "every returned key depends on scheme and authority (unless the URL has no authority)", strings.Join(badRet, "; ")+"; requests to different hosts with the same opaque request-target share an entry")
+		c.Fail("C03.2", "every-key-names-the-origin", "every returned key depends on scheme and authority (unless the URL has no authority), and the raw query is appended whenever it is non-empty", strings.Join(badRet, "; "))
 	} else if nRet > 0 {
 		c.Pass("C03.2", "every-key-names-the-origin", "every returned key depends on scheme and authority (unless the URL has no authority)", fmt.Sprintf("%s: %d returns", c.P.ShortName(uk), nRet))
 	}
